@@ -247,13 +247,13 @@ def _sh_unary(tier):
 def _sh_boolean(tier):
     if tier == "quick":
         return product_pins(ma=[1, 2], mb=[0, 1], sa=[1, 3], fa=[2], sb=[1], fb=[1, 2], bsym=[0, 1])
-    return product_pins(ma=[0, 1, 2], mb=[0, 1, 2], sa=[1, 3], fa=[1, 2, 3], sb=[0, 1, 3], fb=[1, 2], bsym=[0, 1])
+    return product_pins(ma=[0, 1, 2], mb=[0, 1, 2], sa=[1, 3], fa=[1, 2, 3], sb=[0, 1, 3])
 
 
 def _sh_rational(tier):
     if tier == "quick":
         return product_pins(ma=[1], mb=[0, 1], sa=[1, 3], fa=[2], sb=[1], fb=[1, 2], bsym=[0, 1])
-    return product_pins(ma=[0, 1, 2], mb=[0, 1], sa=[1, 3], fa=[1, 2, 3], sb=[0, 1, 3], fb=[1, 2], bsym=[0, 1])
+    return product_pins(ma=[0, 1, 2], mb=[0, 1], sa=[1, 3], fa=[1, 2, 3], sb=[0, 1, 3])
 
 
 def _sh_self(tier):
